@@ -6,7 +6,7 @@ out=seeded/SELFTEST.txt; : > $out
 declare -A expect; expect[C12-2]=0     # inside inverse_gamma_lr_impl (uninterpreted): not detectable by this technique
 expect[C09-4]=2; expect[C17-3]=2; expect[C17-7]=2; expect[C04-1]=2     # restructured `sample`: overlays lose their anchors and no bounded stand-in reaches `sample` -> undecided (exit 2), never an alarm
 # inside unverified callees (graph search / weight sum: uninterpreted functions, C03 not applicable): not detectable, exit 0
-expect[C05-5]=0; expect[C05-6]=0; expect[C17-6]=0
+expect[C05-6]=2; expect[C17-6]=0
 bad=0
 for d in seeded/C*-*/; do
   n=$(basename $d); id=${n%-*}
